@@ -104,9 +104,21 @@ func runC15(rc *RC) {
 	}
 	payload2 := genPayload(rc, block)
 	closer := ch.Int("workload", 3) // 0 opener closes, 1 acceptor closes, 2 nobody (session ends)
+	// the end that does NOT close may still hold written but unflushed bytes when the other end closes: they are
+	// flushed when the close request arrives and the closing end's reader gets them before end-of-file
+	lazyTail := !wrap && closer != 2 && ch.Chance("workload", 1, 3)
 	rbuf := []int{1, 2, 7, 64, 1000, 70000}[ch.Int("workload", 6)]
 	sid := "sid" + strconv.Itoa(ch.Int("workload", 1000))
 	overflow := !wrap && acceptMode != 5 && ch.Chance("workload", 1, 6)
+	tailA, tailB := 0, 0
+	if lazyTail && !overflow {
+		if closer == 1 && len(payload) > 0 {
+			tailA = 1 + ch.Int("workload", min(len(payload), block))
+		}
+		if closer == 0 && reverse && len(payload2) > 0 {
+			tailB = 1 + ch.Int("workload", min(len(payload2), block))
+		}
+	}
 	readGo := !overflow
 	bufSet := !overflow
 	if overflow {
@@ -117,7 +129,7 @@ func runC15(rc *RC) {
 			payload = append(payload, 'x')
 		}
 	}
-	rc.Describe("overflow=%v strategy=%s block=%d carrier-iq=%v accept=%d reverse=%v len=%d len2=%d closer=%d readbuf=%d wrap=%v", overflow, strat, block, ack, acceptMode, reverse, len(payload), len(payload2), closer, rbuf, wrap)
+	rc.Describe("overflow=%v strategy=%s block=%d carrier-iq=%v accept=%d reverse=%v len=%d len2=%d closer=%d readbuf=%d wrap=%v tailA=%d tailB=%d", overflow, strat, block, ack, acceptMode, reverse, len(payload), len(payload2), closer, rbuf, wrap, tailA, tailB)
 	rc.CaseKey = fmt.Sprint(block, ack, acceptMode, reverse, closer)
 	bJID := jid.MustParse("example.net")
 
@@ -132,7 +144,17 @@ func runC15(rc *RC) {
 	ctx, cancel := context.WithTimeout(p.Ctx, 10*time.Minute)
 	rc.OnCleanup(cancel)
 
-	writeAll := func(c io.Writer, fl func() error, data []byte, label string) error {
+	writeAll := func(c io.Writer, fl func() error, data []byte, label string, k int) error {
+		var tail []byte
+		if k > 0 {
+			data, tail = data[:len(data)-k], data[len(data)-k:]
+		}
+		defer func() {
+			// written last and never flushed by the writer
+			if len(tail) > 0 {
+				c.Write(tail)
+			}
+		}()
 		for len(data) > 0 {
 			k := 1 + ch.Int(label, min(len(data), 1+block*2))
 			if ch.Chance(label, 1, 4) {
@@ -178,7 +200,7 @@ func runC15(rc *RC) {
 			}
 			if reverse {
 				rc.Spawn("writer-b", func() {
-					werrB = writeAll(connB, connB.(*ibb.Conn).Flush, payload2, "wb")
+					werrB = writeAll(connB, connB.(*ibb.Conn).Flush, payload2, "wb", tailB)
 					writeDoneB = true
 				})
 			}
@@ -215,7 +237,7 @@ func runC15(rc *RC) {
 			rc.Spawn("reader-a", func() { readAll(rc, connA, &rdA, rbuf) })
 		}
 		simrt.WaitUntil("writer-a:buffer-limit-set", func() bool { return bufSet || acceptErr != nil })
-		werrA = writeAll(connA, connA.Flush, payload, "wa")
+		werrA = writeAll(connA, connA.Flush, payload, "wa", tailA)
 		writeDoneA = true
 		if closer == 0 {
 			simrt.WaitUntil("closer-a", func() bool { return phase >= 1 })
@@ -265,7 +287,8 @@ func runC15(rc *RC) {
 	}
 	// phase 2: everything written and flushed must become readable without further writes
 	// (the base64 layer holds back an incomplete 3-byte group until Close; the statement does not promise those before Close)
-	must1, must2 := len(payload)-len(payload)%3, len(payload2)-len(payload2)%3
+	must1, must2 := len(payload)-tailA, len(payload2)-tailB
+	must1, must2 = must1-must1%3, must2-must2%3
 	rc.S.Run(func() bool { return len(rdB.got) >= must1 && (!reverse || len(rdA.got) >= must2) }, 4000000, time.Minute)
 	checkPrefix := func(label string, got, want []byte) {
 		rc.Evals["C15.c2"]++
@@ -369,7 +392,23 @@ func runC15(rc *RC) {
 			} else if !bytes.Equal(rdB.got, payload) {
 				rc.Failf("C15.c2", "bytes-lost-at-close:a->b", "after Close the reader has %d bytes, %d were written", len(rdB.got), len(payload))
 			}
-		} else if reverse {
+		}
+		if closer == 1 && tailA > 0 {
+			// the acceptor closed while the opener still held unflushed bytes: the acceptor's own reader gets them, then end-of-file
+			if !rdB.done || !rdB.eof {
+				rc.Failf("C15.c2", "no-eof-after-own-close:a->b", "the acceptor closed the stream but its own reader did not reach end-of-file (done=%v err=%v, %d/%d bytes); stuck %v", rdB.done, rdB.err, len(rdB.got), len(payload), rc.S.Stuck())
+			} else if !bytes.Equal(rdB.got, payload) {
+				rc.Failf("C15.c2", "peer-tail-lost-at-close:a->b", "the acceptor closed while the opener held %d written but unflushed bytes: the acceptor's reader has %d of %d bytes", tailA, len(rdB.got), len(payload))
+			}
+		}
+		if closer == 0 && tailB > 0 {
+			if !rdA.done || !rdA.eof {
+				rc.Failf("C15.c2", "no-eof-after-own-close:b->a", "the opener closed the stream but its own reader did not reach end-of-file (done=%v err=%v, %d/%d bytes); stuck %v", rdA.done, rdA.err, len(rdA.got), len(payload2), rc.S.Stuck())
+			} else if !bytes.Equal(rdA.got, payload2) {
+				rc.Failf("C15.c2", "peer-tail-lost-at-close:b->a", "the opener closed while the acceptor held %d written but unflushed bytes: the opener's reader has %d of %d bytes", tailB, len(rdA.got), len(payload2))
+			}
+		}
+		if closer == 1 && reverse {
 			if !rdA.done || !rdA.eof {
 				rc.Failf("C15.c2", "no-eof-after-close:b->a", "the acceptor closed the stream but the opener's reader did not reach end-of-file (done=%v err=%v, %d/%d bytes); stuck %v", rdA.done, rdA.err, len(rdA.got), len(payload2), rc.S.Stuck())
 			} else if !bytes.Equal(rdA.got, payload2) {
